@@ -319,4 +319,23 @@ theorem act_redir {np : NestedParse} {t wt : Token} {wn : Node} {l : Local} {T :
     Nat.add_one_sub_one, pure_bind]
   exact Tot.pure ⟨rfl, h⟩
 
+/-- `p_redirection` on the four-symbol productions `NUMBER op WORD` -/
+theorem act_redirN {np : NestedParse} {nt t wt : Token} {wn : Node} {k : Nat} {l : Local} {T : Tape}
+    {P : SVal × Bool → Local → Tape → Prop}
+    (hwt : wt.is .WORD = true) (hnv : nt.value = .int k)
+    (hexp : ∀ Q : Node → Local → Tape → Prop, Q wn l T → Tot (expandword np wt) l T Q)
+    (h : P (.node (.redirect (nt.lexpos, wt.endlexpos) (.num k) t.valueStr (some wn) .none none none),
+      false) l T) :
+    Tot (action np "p_redirection" [.tok nt, .tok t, .tok wt]) l T P := by
+  refine tot_action_of_core ?_
+  unfold actionCore; simp only []
+  simp only [PCtx.len, PCtx.slice, PCtx.tokAt, List.length_cons, List.length_nil,
+    List.getD_cons_zero, List.getD_cons_succ, Nat.sub_self, Nat.add_one_sub_one, pure_bind, hwt, if_true]
+  refine Tot.bind (hexp _ ?_)
+  simp only [show ((0 + 1 + 1 + 1 + 1 : Nat) == 3) = false from rfl, Bool.false_eq_true, if_false,
+    PCtx.strAt, PCtx.tokAt,
+    PCtx.slice, PCtx.lexspan, SVal.lexspan, List.getD_cons_zero, List.getD_cons_succ, Nat.sub_self,
+    Nat.add_one_sub_one, pure_bind, hnv]
+  exact Tot.pure ⟨rfl, h⟩
+
 end Bashlex.C02
